@@ -260,4 +260,131 @@ def judgeObs (o : Observation) : ObsVerdict :=
 
 def ObsVerdict.all (v : ObsVerdict) : Bool := v.range && v.symm && v.self && v.disjoint
 
+/-! ### the route `compute_affinity` takes, as data
+
+  (re-derived from the source by symbolic tracing for all 81 type pairs, every `Geos`, all
+  coordinates and buffers: `harness/props/c06.py`, obligations `ext_route_*`) -/
+
+/-- where `compute_affinity` ends: in `compute_affinity_in_time` with these time extents, or in the
+    area branch with this value -/
+inductive Route
+  | time (s1 e1 s2 e2 : Rat)
+  | area (v : Rat)
+  deriving DecidableEq, Repr, Inhabited
+
+def Route.value : Route → Rat
+  | .time s1 e1 s2 e2 => timeIoU s1 e1 s2 e2
+  | .area v => v
+
+/-- `none`: `compute_affinity` raises (`ValueError` of `buffer_geometry`) -/
+def route {σ} (G : Geos σ) (g1 g2 : Geom) (tb fb : Rat) : Option Route :=
+  match prepare G g1 tb fb, prepare G g2 tb fb with
+  | .ok p1, .ok p2 =>
+    if isTime p1 || isTime p2 then
+      some (.time (timeBounds G p1).1 (timeBounds G p1).2 (timeBounds G p2).1 (timeBounds G p2).2)
+    else
+      some (.area (iouC (G.area (toShape G p1)) (G.area (toShape G p2)) (G.inter (toShape G p1) (toShape G p2))))
+  | _, _ => none
+
+/-! ### the same computation in a rounding arithmetic
+
+  Every arithmetic operation of the Python code returns `rnd` of the exact result (binary64
+  round-to-nearest is one such `rnd`; `rnd = id` gives the definitions above).  `min`, `max`,
+  comparisons and the literal `0` are exact.  The laws a rounding obeys are
+  `Proofs.Lemmas.Affinity.IsRounding`. -/
+
+/-- `compute_affinity_in_time` operation by operation -/
+def timeIoUR (rnd : Rat → Rat) (s1 e1 s2 e2 : Rat) : Rat :=
+  let i := max 0 (rnd (min e1 e2 - max s1 s2))
+  let u := rnd (rnd (rnd (e1 - s1) + rnd (e2 - s2)) - i)
+  if u = 0 then 0 else rnd (i / u)
+
+/-- the area branch of `compute_affinity` operation by operation (after the repair) -/
+def iouCR (rnd : Rat → Rat) (a b i : Rat) : Rat :=
+  let u := rnd (rnd (a + b) - i)
+  if u = 0 then 0 else min (rnd (i / u)) 1
+
+/-- `buffer_geometry` with rounded arithmetic in `buffer_timestamp` / `buffer_interval` /
+    `buffer_bounding_box_geometry` -/
+def bufferGeometryR {σ} (rnd : Rat → Rat) (G : Geos σ) (g : Geom) (tb fb : Rat) : Except Err (Prep σ) :=
+  if tb < 0 ∨ fb < 0 then .error .invalid
+  else match g with
+    | .timeStamp t => .ok (.interval "TimeInterval" (max (rnd (t - tb)) 0) (rnd (t + tb)))
+    | .timeInterval s e => .ok (.interval "TimeInterval" (max (rnd (s - tb)) 0) (rnd (e + tb)))
+    | .boundingBox s l e h =>
+      .ok (.box (max (rnd (s - tb)) 0) (max (rnd (l - fb)) 0) (rnd (e + tb)) (min (rnd (h + fb)) MAXF))
+    | g => .ok (.shape "Polygon" (G.buffered g tb fb))
+
+def prepareR {σ} (rnd : Rat → Rat) (G : Geos σ) (g : Geom) (tb fb : Rat) : Except Err (Prep σ) :=
+  if bufferTypes.contains g.tag then bufferGeometryR rnd G g tb fb else .ok (asPrep G g)
+
+def affinityPR {σ} (rnd : Rat → Rat) (G : Geos σ) (p1 p2 : Prep σ) : Rat :=
+  if isTime p1 || isTime p2 then
+    timeIoUR rnd (timeBounds G p1).1 (timeBounds G p1).2 (timeBounds G p2).1 (timeBounds G p2).2
+  else
+    iouCR rnd (G.area (toShape G p1)) (G.area (toShape G p2)) (G.inter (toShape G p1) (toShape G p2))
+
+/-- `compute_affinity` in the rounding arithmetic `rnd` -/
+def affinityR {σ} (rnd : Rat → Rat) (G : Geos σ) (g1 g2 : Geom) (tb fb : Rat) : Except Err Rat :=
+  match prepareR rnd G g1 tb fb with
+  | .error e => .error e
+  | .ok p1 =>
+    match prepareR rnd G g2 tb fb with
+    | .error e => .error e
+    | .ok p2 => .ok (affinityPR rnd G p1 p2)
+
+/-- the route in the rounding arithmetic (`Route.time` carries the rounded extents, `Route.area`
+    the rounded clamped ratio) -/
+def routeR {σ} (rnd : Rat → Rat) (G : Geos σ) (g1 g2 : Geom) (tb fb : Rat) : Option Route :=
+  match prepareR rnd G g1 tb fb, prepareR rnd G g2 tb fb with
+  | .ok p1, .ok p2 =>
+    if isTime p1 || isTime p2 then
+      some (.time (timeBounds G p1).1 (timeBounds G p1).2 (timeBounds G p2).1 (timeBounds G p2).2)
+    else
+      some (.area (iouCR rnd (G.area (toShape G p1)) (G.area (toShape G p2))
+        (G.inter (toShape G p1) (toShape G p2))))
+  | _, _ => none
+
+def Route.valueR (rnd : Rat → Rat) : Route → Rat
+  | .time s1 e1 s2 e2 => timeIoUR rnd s1 e1 s2 e2
+  | .area v => v
+
+/-- rounding to integers (downwards): a concrete, non-trivial rounding for examples -/
+def floorRnd (x : Rat) : Rat := (x.floor : Rat)
+
+/-! ### binary64 round-to-nearest-even, executable (normal range; no overflow / subnormals) -/
+
+/-- `⌊log₂ (n / d)⌋` for positive `n`, `d` -/
+def log2Rat (n d : Nat) : Int :=
+  let e0 : Int := (n.log2 : Int) - (d.log2 : Int)
+  -- 2^e0 ≤ n/d may fail by one: n/d < 2^e0 ⇔ n < d * 2^e0
+  let below : Bool := if e0 ≥ 0 then n < d * 2 ^ e0.toNat else n * 2 ^ (-e0).toNat < d
+  if below then e0 - 1 else e0
+
+def pow2 (e : Int) : Rat := if e ≥ 0 then ((2 ^ e.toNat : Nat) : Rat) else 1 / ((2 ^ (-e).toNat : Nat) : Rat)
+
+/-- the binary64 number nearest to `x` (ties to even), as a rational -/
+def rnd64 (x : Rat) : Rat :=
+  if x = 0 then 0 else
+  let a := if x < 0 then -x else x
+  let e := log2Rat a.num.toNat a.den
+  let q := a * pow2 (52 - e)          -- in [2^52, 2^53)
+  let f := q.floor
+  let r := q - (f : Rat)
+  let m : Int := if r < 1/2 then f else if r > 1/2 then f + 1 else if f % 2 = 0 then f else f + 1
+  let y := (m : Rat) * pow2 (e - 52)
+  if x < 0 then -y else y
+
+/-- a box that `boxesMeasured = false` keeps in closed form has its area computed by GEOS as well;
+    in the bit-exact comparison every shape is a measured side -/
+def affinity64 {σ} (G : Geos σ) (g1 g2 : Geom) (tb fb : Rat) : Except Err Rat := affinityR rnd64 G g1 g2 tb fb
+
+/-- the coordinates `buffer_geometry` returns for a TimeStamp / TimeInterval / BoundingBox in the rounding
+    arithmetic (`none`: it raises, or the geometry is handed to GEOS) -/
+def bufferedCoordsR (rnd : Rat → Rat) (g : Geom) (tb fb : Rat) : Option (List Rat) :=
+  match bufferGeometryR rnd unitGeos g tb fb with
+  | .ok (.interval _ s e) => some [s, e]
+  | .ok (.box s l e h) => some [s, l, e, h]
+  | _ => none
+
 end SE.Affinity
